@@ -1136,6 +1136,80 @@ Proof.
     exact (fork_adds_ok _ fuel _ _ fk _ _ Hv1 Hfk Hc R _ _ _ _ _ E1).
 Qed.
 
+(* weight: a switch that runs to the end (every block of the fork from [c] up added) ends on a chain at
+   least as heavy as the fork's tip *)
+Lemma fork_adds_weight : forall n fuel v s fk c l, vol_ok v -> fork_ok fk -> chain_ok l -> rep s l ->
+  f_blocks fk (height (f_latest fk)) = Some (f_latest fk) -> c <= height (f_latest fk) ->
+  (N.to_nat (height (f_latest fk) - c) < n)%nat ->
+  forall ws c2 v2, fork_adds n fuel v s fk c = (ws, true, c2, v2, false) ->
+  exists l', chain_ok l' /\ rep (apply ws s) l' /\ qn (f_latest fk) <= qhd l'.
+Proof.
+  induction n as [|n IH]; intros fuel v s fk c l Hv Hfk Hc R Hlt Hle Hn ws c2 v2 E0. lia.
+  cbn [fork_adds] in E0.
+  destruct (N.ltb_spec (height (f_latest fk)) c) as [Hx|_]; [lia|].
+  destruct (f_blocks fk c) as [b|] eqn:Eb; [|discriminate].
+  assert (Ub : U b) by (eapply Hfk; eauto).
+  destruct v as [fut vf]. destruct Hv as [Hf Hvf]. cbn [fst snd] in *.
+  destruct (byHash s (pre b)); [|discriminate].
+  destruct (is_some (byHash s (hash b))); [discriminate|].
+  destruct (add_writes fuel fut vf s b) as [[[ws1 r1] ex1] vf1] eqn:E1.
+  destruct (add_ok fuel fut vf s l b Hf Hvf Hc R Ub _ _ _ _ E1) as [[l1 [P1 [P2 [_ P4]]]] [_ [_ P7]]].
+  destruct r1; try discriminate.
+  destruct (fork_adds n fuel (fut, vf1) (apply ws1 s) fk (c + 1)) as [[[[ws2 ok2] c3] v3] ex2] eqn:E2.
+  inversion E0; subst. apply orb_false_elim in H4. destruct H4 as [He1 He2]. subst ex1 ex2.
+  assert (Hv1 : vol_ok (fut, vf1)) by (split; auto).
+  destruct (N.eq_dec c (height (f_latest fk))) as [e|ne].
+  - (* b is the fork's tip; nothing is left to add *)
+    assert (b = f_latest fk) by congruence. subst b.
+    assert (ws2 = []).
+    { destruct n; cbn [fork_adds] in E2. now inversion E2.
+      destruct (N.ltb_spec (height (f_latest fk)) (c + 1)); [now inversion E2|lia]. }
+    subst ws2. rewrite app_nil_r. exists l1. split; auto.
+  - destruct (IH fuel (fut, vf1) (apply ws1 s) fk (c + 1) l1 Hv1 Hfk P1 P2 Hlt ltac:(lia) ltac:(lia) _ _ _ E2)
+      as [l' [Q1 [Q2 Q3]]].
+    exists l'. rewrite apply_app. auto.
+Qed.
+
+Lemma fork_trigger_weight : forall fuel v s fk l, vol_ok v -> fork_ok fk -> chain_ok l -> rep s l ->
+  f_blocks fk (height (f_latest fk)) = Some (f_latest fk) ->
+  (if f_current fk =? f_header fk then f_current fk + 1 else f_current fk) <= height (f_latest fk) ->
+  forall ws fk' v2, fork_trigger fuel v s fk = (ws, true, fk', v2, false) ->
+  exists l', chain_ok l' /\ rep (apply ws s) l' /\ qhd l <= qhd l'.
+Proof.
+  intros fuel v s fk l Hv Hfk Hc R Hlt Hle ws fk' v2 E0. unfold fork_trigger in E0.
+  rewrite (r_cur _ _ R) in E0. destruct l as [|top t]; [contradiction|]. cbn [hd_error] in E0.
+  assert (Stay : exists l', chain_ok l' /\ rep (apply [] s) l' /\ qhd (top :: t) <= qhd l').
+  { exists (top :: t). cbn. split; auto. split; auto. lia. }
+  destruct (N.ltb_spec (qn (f_latest fk)) (qn top)) as [_|Hq]. { inversion E0; subst. exact Stay. }
+  destruct (fork_anc _ fk s (f_current fk) None) as [a|] eqn:Ea.
+  2:{ inversion E0; subst. exact Stay. }
+  destruct ((qn (f_latest fk) =? qn top) && next_pv_great a top fk s).
+  { inversion E0; subst. exact Stay. }
+  assert (Hia : In a (top :: t)) by (eapply fork_anc_in; eauto; discriminate).
+  assert (Hb : forall y, In y (top :: t) -> height y <= height top).
+  { intros y [<-|Hy]. lia. pose proof (chain_ok_lt _ _ _ Hc Hy). lia. }
+  destruct (rfca_ok (N.to_nat (height top - height a)) s (top :: t) (height a) (height top) Hc R
+              (ex_intro _ a (conj Hia eq_refl)) Hb (le_n _)) as [R1 _].
+  destruct (drop_above_at _ _ Hc Hia) as [rest Hd]. rewrite Hd in R1.
+  assert (Hs1 : suffix (a :: rest) (top :: t)) by (rewrite <- Hd; apply drop_above_suffix).
+  assert (Hc1 : chain_ok (a :: rest)) by (eapply chain_ok_suffix; eauto; discriminate).
+  destruct v as [fut vf]. destruct Hv as [Hf Hvf]. cbn [fst snd] in *.
+  destruct (f_current fk =? f_header fk); cbv iota in Hle.
+  - set (ws0 := rfca (N.to_nat (height top - height a)) s (height a) (height top)) in *.
+    destruct (fork_adds _ fuel (fut, vf_after ws0 vf) (apply ws0 s) fk (f_current fk + 1))
+      as [[[[ws1 ok1] c2] v3] ex1] eqn:E1.
+    inversion E0; subst.
+    assert (Hv1 : vol_ok (fut, vf_after ws0 vf)) by (split; cbn; auto using vf_ok_after).
+    destruct (fork_adds_weight _ fuel _ _ fk _ _ Hv1 Hfk Hc1 R1 Hlt Hle (Nat.lt_succ_diag_r _) _ _ _ E1) as [l' [Q1 [Q2 Q3]]].
+    exists l'. rewrite apply_app. split; auto. split; auto. cbn [qhd]. lia.
+  - cbn [app apply fold_left vf_after] in E0.
+    destruct (fork_adds _ fuel (fut, vf) s fk (f_current fk)) as [[[[ws1 ok1] c2] v3] ex1] eqn:E1.
+    inversion E0; subst. cbn [app].
+    assert (Hv1 : vol_ok (fut, vf)) by (split; auto).
+    destruct (fork_adds_weight _ fuel _ _ fk _ _ Hv1 Hfk Hc R Hlt Hle (Nat.lt_succ_diag_r _) _ _ _ E1) as [l' [Q1 [Q2 Q3]]].
+    exists l'. split; auto. split; auto. cbn [qhd]. lia.
+Qed.
+
 (* one triggerOnChain call, cut anywhere, interrupted restarts, one complete restart: Inv *)
 Lemma fork_crash_safe : forall fuel v s fk, vol_ok v -> fork_ok fk -> Inv s -> forall k js,
   Inv (apply (fst (fst (fst (fst (fork_trigger fuel v s fk))))) s) /\
